@@ -268,6 +268,13 @@ def run(ctx: Ctx) -> None:
             ctx.begin_case("tables", idx, task=task, frame_id=frame_id, n_scenes=n_scenes, div=div)
             with ctx.case_guard("tables"):
                 base = gen_scenario(r, task=task, n_frames=r.randint(1, 4 if ctx.quick else 6))
+                if idx % 4 == 1:
+                    # label policy ALLOW_ANY with a confusing but accurate detector: TPs whose estimate label differs
+                    # from the ground truth's label (per-label rates mix the two label sets)
+                    task = "detection"
+                    base = gen_scenario(r, task=task, n_frames=r.randint(2, 4), fp_share=0.0, overrides={"matching_label_policy": "ALLOW_ANY"}, det=dict(p_det=1.0, pos_sig=0.02, yaw_sig=0.05, p_conf=0.7, p_unknown=0.0, force_name=r.choice(["car", "pedestrian", "bicycle"])))
+                    for pf in base.passfail:
+                        pf["matching_threshold_list"] = [5.0 for _ in pf["target_labels"]]
                 if idx % 3 == 0 and task == "detection":
                     # FP-labelled ground truth matched inside its pass/fail threshold while `false_positive` is not an
                     # evaluator target label: the paired row carries a label outside the analyzer's label axes
